@@ -247,12 +247,14 @@ class MediaRequestBase(RequestHandlerBase):
         if representation.encrypted:
             traf_modified = self.update_traf_if_required(options, traf)
             moof_modified = moof_modified or traf_modified
-        if moof_modified:
-            tfhd = traf.find_child('tfhd')
-            if tfhd is not None:
-                # force base_data_offset to be re-calculated when the
-                # tfhd box is encoded
-                tfhd.base_data_offset = None
+        tfhd = traf.find_child('tfhd')
+        if tfhd is not None:
+            # force base_data_offset to be re-calculated when the
+            # tfhd box is encoded. This is needed even when the moof has
+            # not been modified, because a stored base_data_offset is
+            # relative to the start of the media file, not to the
+            # start of the segment that is being served
+            tfhd.base_data_offset = None
         if traf_modified:
             saio = traf.find_child('saio')
             senc = traf.find_child('senc')
